@@ -933,8 +933,18 @@ func parseBinOps(expr string, n *promParser.BinaryExpr) (src []Source) {
 				if s.Operation == "" {
 					s.Operation = n.VectorMatching.Card.String()
 				}
-				// If LHS can NOT be empty then RHS is dead code.
-				if !lhsCanBeEmpty {
+				// If LHS can NOT be empty then RHS is dead code, unless RHS series are guaranteed
+				// a label no LHS series can have: those never match and are always returned.
+				distinct := false
+				for _, name := range s.GuaranteedLabels {
+					if n.VectorMatching.On != slices.Contains(n.VectorMatching.MatchingLabels, name) {
+						continue
+					}
+					if !slices.ContainsFunc(walkNode(expr, n.LHS), func(ls Source) bool { return ls.CanHaveLabel(name) }) {
+						distinct = true
+					}
+				}
+				if !lhsCanBeEmpty && !distinct {
 					s.IsDead = true
 					s.IsDeadReason = "the left hand side always returs something and so the right hand side is never used"
 					s.IsDeadPosition = s.Position
